@@ -2,8 +2,8 @@ package main
 
 import (
 	"fmt"
-	"sort"
 	"go/token"
+	"sort"
 	"strings"
 
 	"golang.org/x/tools/go/ssa"
